@@ -300,7 +300,7 @@ GROUP_PLACES = ["group_only", "group_only_deep"]
 RSHAPES = ["bound_before", "second_of_two_invocations", "inside_rule_disjunction", "used_after"]
 
 
-def gen_arg_pattern(rng, kind, place, rshape, delim=None):
+def gen_arg_pattern(rng, kind, place, rshape, delim=None, outer_bin=None):
     A, Ao = rng.choice([("e0", "e1"), ("e1", "e0")])          # A: the chain; Ao: shortcuts / the alternative
     B, K = rng.choice([("u0", "u1"), ("u1", "u0")])           # B: the even values; K: every value
     v = rng.choice(G.POOL)                                    # the spelling of the local
@@ -314,6 +314,8 @@ def gen_arg_pattern(rng, kind, place, rshape, delim=None):
         return len(macros) - 1
     if place == "group_here_top_level_in_another_argument" and kind not in TWO_PARAMS:
         place = "both_in_one_argument"
+    if outer_bin is None:
+        outer_bin = rng.random() < 0.5
     depth = 1 if place != "group_only_deep" else rng.choice([2, 3])
     with_other = rng.random() < 0.25
 
@@ -324,6 +326,10 @@ def gen_arg_pattern(rng, kind, place, rshape, delim=None):
         pl = {"group_only": "group", "group_only_deep": "group", "top_only": "top", "both_in_one_argument": "both",
               "group_here_top_level_in_another_argument": "group", "other_spelling": rng.choice(["group", "group", "top", "both"])}[place]
         sh = placed(rng, pl, delim=delim, depth=depth, with_other=with_other)
+        if outer_bin and sh[0] == "a" and FORMS[sh[1]][3] == "post":
+            # an operator / cast at the very top: the actual is not a postfix expression and is substituted in parentheses
+            # (invoke_macro, expr_needs_parens_when_substituted); the operand is postfix, so no group is added around it here
+            sh = app(rng.choice(["incs_top", "decs_top", "id_cast"]), sh)
         return xterm(sh, [x, other] if 1 in {k for k, _ in leaf_depths(sh)} else [x])
     L = lid(v, 0)
     base = [["clause", B, [tv(L)], []], ["clause", A, [tv(L), tv(P0)], []]]
@@ -418,20 +424,21 @@ def gen_arg_pattern(rng, kind, place, rshape, delim=None):
 
 
 def plan(tier, rng):
-    """(kind, place, rule shape, delimiter) of a run.  quick: every kind with a group-only argument (the delimiters rotating
-    through all kinds) and with one more placement (rotating); thorough: every kind x every placement, two rule shapes"""
+    """(kind, place, rule shape, delimiter, operator at the top of the argument) of a run.  quick: every kind with a group-only
+    argument (the delimiters rotating through all kinds; an argument written in a macro body always with an operator at its top,
+    i.e. substituted in parentheses) and with one more placement (rotating); thorough: every kind x every placement, two rule shapes"""
     out = []
     if tier != "quick":
         for rep in range(2):
             for i, k in enumerate(KINDS):
                 for j, pl in enumerate(PLACES):
-                    out.append((k, pl, RSHAPES[(i + j + rep) % len(RSHAPES)], DELIMS[(i + j + 3 * rep) % len(DELIMS)]))
+                    out.append((k, pl, RSHAPES[(i + j + rep) % len(RSHAPES)], DELIMS[(i + j + 3 * rep) % len(DELIMS)], rep == 0))
         return out
     off, offd, offr = rng.randrange(len(PLACES)), rng.randrange(len(DELIMS)), rng.randrange(len(RSHAPES))
     rest = [pl for pl in PLACES if pl != "group_only"]
     for i, k in enumerate(KINDS):
-        out.append((k, "group_only", RSHAPES[(offr + i) % len(RSHAPES)] if i % 3 else "bound_before", DELIMS[(offd + i) % len(DELIMS)]))
-        out.append((k, rest[(off + i) % len(rest)], RSHAPES[(offr + i + 1) % len(RSHAPES)], DELIMS[(offd + 2 * i + 1) % len(DELIMS)]))
+        out.append((k, "group_only", RSHAPES[(offr + i) % len(RSHAPES)] if i % 3 else "bound_before", DELIMS[(offd + i) % len(DELIMS)], k in IN_BODY or i % 2 == 0))
+        out.append((k, rest[(off + i) % len(rest)], RSHAPES[(offr + i + 1) % len(RSHAPES)], DELIMS[(offd + 2 * i + 1) % len(DELIMS)], None))
     return out
 
 
@@ -489,6 +496,12 @@ def arg_scan_feats(p):
         names = {x[1] for x in G._idents_items(defs[m]["body"])}
         if any(t[0] == "x" for t in acts):
             feats.add("nested_expression_argument")
+        for t in acts:
+            if t[0] == "x" and render_shape(t[1], ["_"] * len(t[2]))[1] != "post":
+                # not a postfix expression: invoke_macro substitutes it in parentheses
+                feats.add("argument_substituted_in_parentheses")
+                if any(v[0] == "id" and v[2] is not None for v in t[2]):
+                    feats.add("argument_substituted_in_parentheses:over_a_local_of_the_enclosing_macro")
         for s in names:
             ws = [where(t, s) for t in acts]
             here = [w_ for w_, _ in ws if w_ is not None]
